@@ -47,6 +47,7 @@ PROBES = {
     "loopattr": "{% for x in it %}{{ loop.last }}{{ loop.length }}{% endfor %}", "default": "{{ obj.attr|default(fn(@)) }}",
     "mapattr": "{{ objs|map(attribute='attr')|join }}", "groupby": "{{ objs|groupby('attr')|length }}",
     "unique": "{{ it|unique|list|length }}", "batch": "{{ it|batch(2)|list|length }}", "dictsort": "{{ {'a': obj}|dictsort|length }}",
+    "dot_item": "{{ obj.k }}", "dot_missing": "{{ obj.zz|default('d') }}", "sub_attr": "{{ obj['attr'] }}",
     "str_filter": "{{ obj|string|upper }}", "trim": "{{ obj|trim }}", "format": "{{ '%s'|format(obj) }}", "tilde": "{{ obj ~ fn(@) }}",
 }
 PROBE_KINDS = sorted(PROBES)
@@ -404,5 +405,5 @@ def run_shard(spec, ctx):
         return check_case(case, rec)
 
     all_k = cases(ctx.pick(2, 3)).map(lambda c: dict(c, k="all"))
-    core.hyp_shard(all_k, cc, ctx, ctx.pick(45, 500), rec=rec, tag="all")
+    core.hyp_shard(all_k, cc, ctx, ctx.pick(110, 1200), rec=rec, tag="all")
     return rec
